@@ -64,7 +64,7 @@ theorem InvK.preserved {cfg : Cfg} {s s' : State} {l : Label} (hB : InvB s) (hC 
     kind_startupCleanup_iff, kind_coreWatch_iff] at *)
   all_goals (try subst_vars)
   all_goals (try dsimp only)
-  all_goals (grind [upd, Root.kind, TS.active, TS.live, TS.ended, TS.isStopping, failTS, cancelSubs,
+  all_goals (grind [upd, Root.kind, TS.active, TS.live, TS.ended, TS.isStopping, failTS, cancelSubs, cancelPingers,
     cancelRoots, cancelRootsV, Pend.ts, scPastWait, scEarly, scLate, scCancelPath])
 
 theorem InvK.reach {cfg : Cfg} {s : State} (h : Reach cfg s) : InvK s :=
